@@ -12,6 +12,8 @@
 // z build only (kernel ties):
 //   SETZ t1 t2 cb dz  e1bot e1top e2bot e2top ip  (each "x y z"; t: 0 subject 1 clip)   real ClipperBase::SetZ on
 //        two synthetic Active edges -> "<ip.z after> <ncalls> [a.x a.y a.z]*4 zin"  (callback argument order)
+//   SPLITZ cb <ring>   real ClipperBase::DoSplitOp on a synthetic OutRec ring (>= 4 points, starting at prevOp)
+//        -> "G ipx ipy ipz small keep K <kept ring x y z|-1> N <new ring|-1> L ncalls [4 args x y z, zin]*"
 //   ZCBD prec  e1bot e1top e2bot e2top ip   real ClipperD::ZCB with a logging user callback
 //        -> 5 points as hex doubles x y + z as received by the user callback, then pt.x pt.y pt.z after
 //   EQ x y z x y z                          operator== / operator!=
@@ -140,6 +142,38 @@ int main() {
         w(a); w(b); w(c_); w(d); lg << ' ' << p.z; ++n; if (cb == 1) p.z = 777; });
       c.SetZ(e1, e2, ip);
       os << ip.z << ' ' << n << lg.str();
+    } else if (cmd == "SPLITZ") {
+      // real ClipperBase::DoSplitOp on a synthetic output ring [prevOp splitOp splitOp.next nextNextOp rest..] (n >= 4).
+      // G: the geometric decisions, derived with the same library calls DoSplitOp makes (they parametrise the Coq model);
+      // K: the kept ring from outrec->pts (-1 = disposed); N: the split-off ring from its pts (-1 = none); L: callback log.
+      int cb = t.i32(); Path64 ring = rd_pathz(t);
+      if (ring.size() < 4) { os << "EXC ring too short"; return; }
+      Clipper64 c;
+      std::ostringstream lg; size_t n = 0;
+      if (cb) c.SetZCallback([&](const Point64& a, const Point64& b, const Point64& c_, const Point64& d, Point64& p) {
+        auto w = [&](const Point64& q) { lg << ' ' << q.x << ' ' << q.y << ' ' << q.z; };
+        w(a); w(b); w(c_); w(d); lg << ' ' << p.z; ++n; if (cb == 1) p.z = 777; });
+      OutRec* orc = c.NewOutRec();
+      std::vector<OutPt*> ops;
+      for (auto& q : ring) ops.push_back(new OutPt(q, orc));
+      for (size_t k = 0; k < ops.size(); ++k) { ops[k]->next = ops[(k + 1) % ops.size()]; ops[k]->prev = ops[(k + ops.size() - 1) % ops.size()]; }
+      orc->pts = ops[0];
+      Point64 ip0; GetSegmentIntersectPt(ring[0], ring[1], ring[2], ring[3], ip0);
+      double area1 = Area(orc->pts), area2 = AreaTriangle(ip0, ring[1], ring[2]);
+      bool small = std::fabs(area1) < 2;
+      bool keep = std::fabs(area2) >= 1 && (std::fabs(area2) > std::fabs(area1) || (area2 > 0) == (area1 > 0));
+      os << "G " << ip0.x << ' ' << ip0.y << ' ' << ip0.z << ' ' << small << ' ' << keep;
+      size_t before = c.outrec_list_.size();
+      c.DoSplitOp(orc, ops[1]);
+      auto put_ring = [&](OutPt* start) {
+        if (!start) { os << " -1"; return; }
+        std::vector<Point64> v; OutPt* op = start; size_t guard = 0;
+        do { v.push_back(op->pt); op = op->next; } while (op != start && ++guard < 100000);
+        os << ' ' << v.size(); for (auto& q : v) os << ' ' << q.x << ' ' << q.y << ' ' << q.z;
+      };
+      os << " K"; put_ring(orc->pts);
+      os << " N"; put_ring(c.outrec_list_.size() > before ? c.outrec_list_.back()->pts : nullptr);
+      os << " L " << n << lg.str();
     } else if (cmd == "ZCBD") {
       int prec = t.i32();
       Point64 b1 = rd_ptz(t), tp1 = rd_ptz(t), b2 = rd_ptz(t), tp2 = rd_ptz(t), ip = rd_ptz(t);
